@@ -15,10 +15,18 @@ open J5V.Go
 
 /-! ## Part 1: UTF-8 -/
 
+theorem validRune_iff (r : Nat) :
+    validRune r = true ↔ (r < 0xD800 ∨ (0xE000 ≤ r ∧ r < 0x110000)) := by
+  unfold validRune; simp
+
 theorem decodeOne_valid (bs : List Nat) : validRune (decodeOne bs).1 = true := by
+  rw [validRune_iff]
   unfold decodeOne
   repeat' split
-  all_goals simp_all [isCont, validRune, runeError]
+  all_goals simp_all [isCont, runeError]
+  all_goals (try omega)
+  all_goals split
+  all_goals dsimp only
   all_goals omega
 
 theorem decodeRunesFuel_valid (f : Nat) : ∀ bs : List Nat, ∀ r ∈ decodeRunesFuel f bs,
@@ -47,7 +55,7 @@ theorem decodeRunes_valid (bs : List Nat) : ∀ r ∈ decodeRunes bs, validRune 
 theorem decodeOne_1 (b0 : Nat) (rest : List Nat) (h : b0 < 0x80) :
     decodeOne (b0 :: rest) = (b0, 1) := by
   unfold decodeOne
-  rw [if_pos h]
+  simp only [h, if_true]
 
 theorem decodeOne_2 (b0 b1 : Nat) (rest : List Nat) (h1 : 0xC2 ≤ b0) (h2 : b0 < 0xE0)
     (h3 : 0x80 ≤ b1) (h4 : b1 ≤ 0xBF) :
@@ -97,28 +105,29 @@ theorem decodeOne_encodeRune (r : Nat) (hr : validRune r = true) (rest : List Na
     · rw [if_pos h2]
       show decodeOne ((0xC0 + r / 64) :: (0x80 + r % 64) :: rest) = (r, 2)
       rw [decodeOne_2 _ _ _ (by omega) (by omega) (by omega) (by omega)]
-      congr 1
-      omega
+      have e : (0xC0 + r / 64 - 0xC0) * 64 + (0x80 + r % 64 - 0x80) = r := by omega
+      rw [e]
     · rw [if_neg h2]
       have hv : (!validRune r) = false := by rw [hr]; rfl
       rw [hv]
       simp only [Bool.false_eq_true, if_false]
-      have hr' : r < 0xD800 ∨ (0xE000 ≤ r ∧ r < 0x110000) := by
-        simp [validRune] at hr; exact hr
+      have hr' := (validRune_iff r).mp hr
       by_cases h3 : r < 0x10000
       · rw [if_pos h3]
         show decodeOne ((0xE0 + r / 4096) :: (0x80 + r / 64 % 64) :: (0x80 + r % 64) :: rest) = (r, 3)
         rw [decodeOne_3 _ _ _ _ (by omega) (by omega) (by split <;> omega) (by split <;> omega)
           (by omega) (by omega)]
-        congr 1
-        omega
+        have e : (0xE0 + r / 4096 - 0xE0) * 4096 + (0x80 + r / 64 % 64 - 0x80) * 64 +
+            (0x80 + r % 64 - 0x80) = r := by omega
+        rw [e]
       · rw [if_neg h3]
         show decodeOne ((0xF0 + r / 262144) :: (0x80 + r / 4096 % 64) :: (0x80 + r / 64 % 64) ::
           (0x80 + r % 64) :: rest) = (r, 4)
         rw [decodeOne_4 _ _ _ _ _ (by omega) (by omega) (by split <;> omega) (by split <;> omega)
           (by omega) (by omega) (by omega) (by omega)]
-        congr 1
-        omega
+        have e : (0xF0 + r / 262144 - 0xF0) * 262144 + (0x80 + r / 4096 % 64 - 0x80) * 4096 +
+            (0x80 + r / 64 % 64 - 0x80) * 64 + (0x80 + r % 64 - 0x80) = r := by omega
+        rw [e]
 
 theorem encodeRune_ne_nil (r : Rune) : encodeRune r ≠ [] := by
   unfold encodeRune
@@ -150,5 +159,1288 @@ theorem decode_encode (rs : List Rune) (h : ∀ r ∈ rs, validRune r = true) :
     have : encodeRunes (r :: rs) = encodeRune r ++ encodeRunes rs := by
       simp [encodeRunes, List.flatMap_cons]
     rw [this, decodeRunes_encodeRune_append r (h r (by simp)), ih (fun x hx => h x (by simp [hx]))]
+
+/-! ## Part 2: the formatter prints runes of the source and ASCII punctuation -/
+
+/-- the runes the formatter (and the lexer's literals) insert -/
+def fmtConsts : List Rune :=
+  [cNL, cTAB, cSP, cQUOTE, cBSL, cSLASH, cSTAR, cPIPE, cDOT, 61, 123, 125, 91, 93, 44, 58, 43, 33, 63]
+
+/-- every rune of `l` satisfies `P` -/
+def RunesP (P : Rune → Prop) (l : List Rune) : Prop := ∀ r ∈ l, P r
+
+/-- `P` holds for the inserted constants (record form of `∀ r ∈ fmtConsts, P r`) -/
+structure PConsts (P : Rune → Prop) : Prop where
+  nl : P cNL
+  tab : P cTAB
+  sp : P cSP
+  quote : P cQUOTE
+  bsl : P cBSL
+  slash : P cSLASH
+  star : P cSTAR
+  pipe : P cPIPE
+  dot : P cDOT
+  assign : P 61
+  lbrace : P 123
+  lbrack : P 91
+  rbrack : P 93
+  comma : P 44
+  colon : P 58
+  plus : P 43
+
+theorem PConsts.of_list {P : Rune → Prop} (h : ∀ r ∈ fmtConsts, P r) : PConsts P := by
+  constructor <;> exact h _ (by simp [fmtConsts])
+
+section Runes
+variable {P : Rune → Prop}
+
+theorem RunesP.nil : RunesP P [] := fun _ h => by cases h
+
+theorem RunesP.cons {a : Rune} {l : List Rune} (ha : P a) (hl : RunesP P l) : RunesP P (a :: l) := by
+  intro r hr
+  rcases List.mem_cons.mp hr with h | h
+  · rw [h]; exact ha
+  · exact hl r h
+
+theorem RunesP.head {a : Rune} {l : List Rune} (h : RunesP P (a :: l)) : P a := h a (by simp)
+
+theorem RunesP.tail {a : Rune} {l : List Rune} (h : RunesP P (a :: l)) : RunesP P l :=
+  fun r hr => h r (List.mem_cons_of_mem _ hr)
+
+theorem RunesP.append {a b : List Rune} (ha : RunesP P a) (hb : RunesP P b) : RunesP P (a ++ b) := by
+  intro r hr
+  rcases List.mem_append.mp hr with h | h
+  · exact ha r h
+  · exact hb r h
+
+theorem RunesP.snoc {l : List Rune} {a : Rune} (hl : RunesP P l) (ha : P a) : RunesP P (l ++ [a]) :=
+  hl.append (RunesP.cons ha RunesP.nil)
+
+theorem RunesP.flatMap {l : List Rune} {f : Rune → List Rune} (hl : RunesP P l)
+    (hf : ∀ r, P r → RunesP P (f r)) : RunesP P (l.flatMap f) := by
+  intro x hx
+  obtain ⟨r, hr, hxr⟩ := List.mem_flatMap.mp hx
+  exact hf r (hl r hr) x hxr
+
+theorem RunesP.drop {l : List Rune} (n : Nat) (h : RunesP P l) : RunesP P (l.drop n) :=
+  fun r hr => h r (List.mem_of_mem_drop hr)
+
+theorem joinWith_runes {sep : List Rune} (hs : RunesP P sep) : ∀ (ls : List (List Rune)),
+    (∀ l ∈ ls, RunesP P l) → RunesP P (joinWith sep ls)
+  | [], _ => RunesP.nil
+  | [a], h => by unfold joinWith; exact h a (by simp)
+  | a :: b :: rest, h => by
+    unfold joinWith
+    exact ((h a (by simp)).append hs).append
+      (joinWith_runes hs (b :: rest) (fun l hl => h l (List.mem_cons_of_mem _ hl)))
+
+/-! ### lexer -/
+
+/-- literal and remaining input of a lexing routine only hold `P` runes -/
+structure LitP (P : Rune → Prop) (x : LitRes) : Prop where
+  lit : RunesP P x.lit
+  rest : RunesP P x.rest
+
+theorem lexLineLoop_runes (c : Cur) (lit rest : List Rune) (h1 : RunesP P lit) (h2 : RunesP P rest) :
+    LitP P (lexLineLoop c lit rest) := by
+  induction rest generalizing c lit with
+  | nil => unfold lexLineLoop; exact ⟨h1, RunesP.nil⟩
+  | cons r rs ih =>
+    unfold lexLineLoop
+    split
+    · exact ⟨h1, h2⟩
+    · exact ih _ _ (h1.snoc h2.head) h2.tail
+
+theorem lexLineComment_runes (c : Cur) (rest : List Rune) (h2 : RunesP P rest) :
+    LitP P (lexLineComment c rest) := by
+  cases rest with
+  | nil => unfold lexLineComment; exact ⟨RunesP.nil, RunesP.nil⟩
+  | cons r rs => unfold lexLineComment; exact lexLineLoop_runes _ _ _ RunesP.nil h2.tail
+
+theorem lexBlockLoop_runes (c : Cur) (txt rest : List Rune) (h1 : RunesP P txt) (h2 : RunesP P rest) :
+    LitP P (lexBlockLoop c txt rest) := by
+  induction rest generalizing c txt with
+  | nil => unfold lexBlockLoop; exact ⟨h1, RunesP.nil⟩
+  | cons r rs ih =>
+    unfold lexBlockLoop
+    split
+    · exact ⟨h1, h2.tail.drop 1⟩
+    · exact ih _ _ (h1.snoc h2.head) h2.tail
+
+theorem lexBlockComment_runes (c : Cur) (rest : List Rune) (h2 : RunesP P rest) :
+    LitP P (lexBlockComment c rest) := by
+  cases rest with
+  | nil => unfold lexBlockComment; exact lexBlockLoop_runes _ _ _ RunesP.nil RunesP.nil
+  | cons r rs => unfold lexBlockComment; exact lexBlockLoop_runes _ _ _ RunesP.nil h2.tail
+
+theorem lexStringLoop_runes_aux (n : Nat) : ∀ (c : Cur) (lit rest : List Rune), rest.length ≤ n →
+    RunesP P lit → RunesP P rest → LitP P (lexStringLoop c lit rest) := by
+  induction n with
+  | zero =>
+    intro c lit rest hn h1 h2
+    have : rest = [] := List.eq_nil_of_length_eq_zero (Nat.le_zero.mp hn)
+    subst this
+    unfold lexStringLoop
+    exact ⟨RunesP.nil, RunesP.nil⟩
+  | succ n ih =>
+    intro c lit rest hn h1 h2
+    cases rest with
+    | nil => unfold lexStringLoop; exact ⟨RunesP.nil, RunesP.nil⟩
+    | cons r rs =>
+      unfold lexStringLoop
+      simp only []
+      by_cases q1 : r = cQUOTE
+      · rw [if_pos q1]; exact ⟨h1, h2.tail⟩
+      · rw [if_neg q1]
+        by_cases q2 : r = cNL
+        · rw [if_pos q2]; exact ⟨RunesP.nil, h2.tail⟩
+        · rw [if_neg q2]
+          by_cases q3 : r = cBSL
+          · rw [if_pos q3]
+            cases rs with
+            | nil => exact ⟨RunesP.nil, RunesP.nil⟩
+            | cons e rs2 =>
+              simp only []
+              split
+              · exact ih _ _ rs2 (by simp at hn ⊢; omega) (h1.snoc h2.tail.head) h2.tail.tail
+              · exact ⟨RunesP.nil, h2.tail⟩
+          · rw [if_neg q3]
+            exact ih _ _ rs (by simp at hn ⊢; omega) (h1.snoc h2.head) h2.tail
+
+theorem lexRegexLoop_runes_aux (hc : PConsts P) (n : Nat) : ∀ (c : Cur) (lit rest : List Rune),
+    rest.length ≤ n → RunesP P lit → RunesP P rest → LitP P (lexRegexLoop c lit rest) := by
+  induction n with
+  | zero =>
+    intro c lit rest hn h1 h2
+    have : rest = [] := List.eq_nil_of_length_eq_zero (Nat.le_zero.mp hn)
+    subst this
+    unfold lexRegexLoop
+    exact ⟨RunesP.nil, RunesP.nil⟩
+  | succ n ih =>
+    intro c lit rest hn h1 h2
+    cases rest with
+    | nil => unfold lexRegexLoop; exact ⟨RunesP.nil, RunesP.nil⟩
+    | cons r rs =>
+      unfold lexRegexLoop
+      simp only []
+      by_cases q2 : r = cNL
+      · rw [if_pos q2]; exact ⟨RunesP.nil, h2.tail⟩
+      · rw [if_neg q2]
+        by_cases q3 : r = cSLASH
+        · rw [if_pos q3]
+          cases rs with
+          | nil => exact ⟨h1, RunesP.nil⟩
+          | cons e rs2 =>
+            simp only []
+            split
+            · exact ih _ _ rs2 (by simp at hn ⊢; omega) (h1.snoc hc.slash) h2.tail.tail
+            · exact ⟨h1, h2.tail⟩
+        · rw [if_neg q3]
+          exact ih _ _ rs (by simp at hn ⊢; omega) (h1.snoc h2.head) h2.tail
+
+theorem skipWhitespace_runes (cls : Cls) (c : Cur) (rest : List Rune) (h : RunesP P rest) :
+    RunesP P (skipWhitespace cls c rest).2 := by
+  induction rest generalizing c with
+  | nil => unfold skipWhitespace; exact RunesP.nil
+  | cons r rs ih =>
+    unfold skipWhitespace
+    split
+    · exact ih _ h.tail
+    · exact h
+
+theorem lexDescriptionLine_runes (cls : Cls) (c : Cur) (rest : List Rune) (h : RunesP P rest) :
+    LitP P (lexDescriptionLine cls c rest) := by
+  have hs := skipWhitespace_runes cls c rest h
+  unfold lexDescriptionLine
+  generalize skipWhitespace cls c rest = sw at hs
+  obtain ⟨c1, rest1⟩ := sw
+  exact lexLineLoop_runes _ _ _ RunesP.nil hs
+
+theorem lexIdentLoop_runes (cls : Cls) (c : Cur) (lit rest : List Rune) (h1 : RunesP P lit)
+    (h2 : RunesP P rest) : LitP P (lexIdentLoop cls c lit rest) := by
+  induction rest generalizing c lit with
+  | nil => unfold lexIdentLoop; exact ⟨h1, RunesP.nil⟩
+  | cons r rs ih =>
+    unfold lexIdentLoop
+    split
+    · exact ih _ _ (h1.snoc h2.head) h2.tail
+    · exact ⟨h1, h2⟩
+
+theorem lexNumberLoop_runes (hc : PConsts P) (cls : Cls) (c : Cur) (ty : TokenType)
+    (lit : List Rune) (sd : Bool) (rest : List Rune) (h1 : RunesP P lit) (h2 : RunesP P rest) :
+    RunesP P (lexNumberLoop cls c ty lit sd rest).lit ∧
+      RunesP P (lexNumberLoop cls c ty lit sd rest).rest := by
+  induction rest generalizing c ty lit sd with
+  | nil => unfold lexNumberLoop; exact ⟨h1, RunesP.nil⟩
+  | cons r rs ih =>
+    unfold lexNumberLoop
+    by_cases d1 : cls.isDigit r = true
+    · rw [if_pos d1]; exact ih _ _ _ _ (h1.snoc h2.head) h2.tail
+    · rw [if_neg d1]
+      by_cases d2 : r = cDOT
+      · rw [if_pos d2]
+        split
+        · exact ⟨h1, h2⟩
+        · exact ih _ _ _ _ (h1.snoc hc.dot) h2.tail
+      · rw [if_neg d2]; exact ⟨h1, h2⟩
+
+theorem litStep_runes (ty : TokenType) (p : Pos) (x : LitRes) (h : LitP P x) :
+    RunesP P (litStep ty p x).tok.lit ∧ RunesP P (litStep ty p x).rest := by
+  unfold litStep
+  split
+  · exact ⟨RunesP.nil, h.rest⟩
+  · exact ⟨h.lit, h.rest⟩
+
+theorem nextToken_runes (hc : PConsts P) (cls : Cls) (c : Cur) (rest : List Rune)
+    (h : RunesP P rest) :
+    RunesP P (nextToken cls c rest).tok.lit ∧ RunesP P (nextToken cls c rest).rest := by
+  induction rest generalizing c with
+  | nil => unfold nextToken; exact ⟨RunesP.nil, RunesP.nil⟩
+  | cons r rs ih =>
+    have hr : P r := h.head
+    have hrs : RunesP P rs := h.tail
+    unfold nextToken
+    simp only []
+    split
+    · exact ⟨RunesP.cons hr RunesP.nil, hrs⟩
+    · by_cases h1 : r = cSLASH
+      · rw [if_pos h1]
+        by_cases h2 : rs.head? = some cSLASH
+        · rw [if_pos h2]; exact litStep_runes _ _ _ (lexLineComment_runes _ _ hrs)
+        · rw [if_neg h2]
+          by_cases h3 : rs.head? = some cSTAR
+          · rw [if_pos h3]; exact litStep_runes _ _ _ (lexBlockComment_runes _ _ hrs)
+          · rw [if_neg h3]
+            exact litStep_runes _ _ _ (lexRegexLoop_runes_aux hc _ _ _ _ (Nat.le_refl _) RunesP.nil hrs)
+      · rw [if_neg h1]
+        by_cases h2 : r = cQUOTE
+        · rw [if_pos h2]
+          exact litStep_runes _ _ _ (lexStringLoop_runes_aux _ _ _ _ (Nat.le_refl _) RunesP.nil hrs)
+        · rw [if_neg h2]
+          by_cases h3 : r = cPIPE
+          · rw [if_pos h3]; exact litStep_runes _ _ _ (lexDescriptionLine_runes cls _ _ hrs)
+          · rw [if_neg h3]
+            by_cases h4 : r = cNL
+            · rw [if_pos h4]; exact ⟨RunesP.cons hr RunesP.nil, hrs⟩
+            · rw [if_neg h4]
+              by_cases h5 : cls.isSpace r = true
+              · rw [if_pos h5]; exact ih _ hrs
+              · rw [if_neg h5]
+                by_cases h6 : cls.isDigit r = true
+                · rw [if_pos h6]
+                  have hn := lexNumberLoop_runes hc cls (c.adv r) .int [r] false rs
+                    (RunesP.cons hr RunesP.nil) hrs
+                  split <;> exact hn
+                · rw [if_neg h6]
+                  by_cases h7 : cls.isLetter r = true
+                  · rw [if_pos h7]
+                    have hi := lexIdentLoop_runes cls (c.adv r) [r] rs (RunesP.cons hr RunesP.nil) hrs
+                    simp only [asKeyword]
+                    split <;> exact ⟨hi.lit, hi.rest⟩
+                  · rw [if_neg h7]; exact ⟨RunesP.nil, hrs⟩
+
+/-- literals only hold `P` runes -/
+def TokP (P : Rune → Prop) (t : Token) : Prop := RunesP P t.lit
+
+theorem allTokensLoop_runes (hc : PConsts P) (cls : Cls) (ff : Bool) :
+    ∀ (fuel : Nat) (c : Cur) (rest : List Rune) (toks : List Token) (errs : List LexErr)
+      (out : List Token), allTokensLoop cls ff fuel c rest toks errs = .toks out →
+      RunesP P rest → (∀ t ∈ toks, TokP P t) → ∀ t ∈ out, TokP P t := by
+  intro fuel
+  induction fuel with
+  | zero => intro c rest toks errs out h; unfold allTokensLoop at h; cases h
+  | succ fuel ih =>
+    intro c rest toks errs out h hr ht
+    unfold allTokensLoop at h
+    simp only [] at h
+    have hn := nextToken_runes hc cls c rest hr
+    have ht' : ∀ t ∈ toks ++ [(nextToken cls c rest).tok], TokP P t :=
+      forall_mem_append_single ht hn.1
+    split at h
+    · split at h
+      · cases h
+      · split at h
+        · cases h
+        · exact ih _ _ _ _ _ h hn.2 ht'
+    · split at h
+      · split at h
+        · cases h; exact ht
+        · cases h
+      · exact ih _ _ _ _ _ h hn.2 ht'
+
+theorem allTokens_runes (hc : PConsts P) (cls : Cls) (ff : Bool) (src : List Rune) (ts : List Token)
+    (hsrc : RunesP P src) (h : allTokens cls ff src = .toks ts) : ∀ t ∈ ts, TokP P t :=
+  allTokensLoop_runes hc cls ff _ _ _ _ _ _ h hsrc (fun t ht => by cases ht)
+
+/-! ### walker -/
+
+def ToksP (P : Rune → Prop) (ts : List Token) : Prop := ∀ t ∈ ts, TokP P t
+
+theorem ToksP.nil : ToksP P [] := fun _ h => by cases h
+
+theorem ToksP.cons {a : Token} {l : List Token} (ha : TokP P a) (hl : ToksP P l) :
+    ToksP P (a :: l) := by
+  intro r hr
+  rcases List.mem_cons.mp hr with h | h
+  · rw [h]; exact ha
+  · exact hl r h
+
+theorem ToksP.append {a b : List Token} (ha : ToksP P a) (hb : ToksP P b) : ToksP P (a ++ b) := by
+  intro r hr
+  rcases List.mem_append.mp hr with h | h
+  · exact ha r h
+  · exact hb r h
+
+theorem ToksP.flatMap {α : Type} {l : List α} {f : α → List Token}
+    (hf : ∀ x ∈ l, ToksP P (f x)) : ToksP P (l.flatMap f) := by
+  intro t ht
+  obtain ⟨x, hx, htx⟩ := List.mem_flatMap.mp ht
+  exact hf x hx t htx
+
+theorem tokP_new (ty : TokenType) {lit : List Rune} (h : RunesP P lit) : TokP P (newToken ty lit) := h
+
+def IdentP (P : Rune → Prop) (i : Ident) : Prop := TokP P i.token ∧ RunesP P i.value
+
+def RefP (P : Rune → Prop) (r : Reference) : Prop := ∀ i ∈ r.idents, IdentP P i
+
+mutual
+def ValueP (P : Rune → Prop) : Value → Prop
+  | .scalar t _ => TokP P t
+  | .array vs _ => ValueListP P vs
+def ValueListP (P : Rune → Prop) : List Value → Prop
+  | [] => True
+  | v :: vs => ValueP P v ∧ ValueListP P vs
+end
+
+def TagP (P : Rune → Prop) (t : TagValue) : Prop :=
+  TokP P t.markToken ∧ (∀ r, t.reference = some r → RefP P r) ∧ (∀ v, t.value = some v → ValueP P v)
+
+def DescP (P : Rune → Prop) (d : Description) : Prop := ToksP P d.tokens ∧ RunesP P d.value
+
+def CommentP (P : Rune → Prop) (c : Option CommentNode) : Prop := ∀ cn, c = some cn → RunesP P cn.value
+
+def HeaderP (P : Rune → Prop) (h : BlockHeader) : Prop :=
+  RefP P h.type ∧ (∀ t ∈ h.tags, TagP P t) ∧ (∀ t ∈ h.qualifiers, TagP P t) ∧
+    (∀ d, h.description = some d → DescP P d) ∧ CommentP P h.src.comment
+
+def AssignP (P : Rune → Prop) (a : Assignment) : Prop :=
+  RefP P a.key ∧ ValueP P a.value ∧ CommentP P a.src.comment
+
+/-- every rune stored in the fragment (token literals, identifier values, description and comment
+values) satisfies `P` -/
+def FragRunes (P : Rune → Prop) : Fragment → Prop
+  | .header h => HeaderP P h
+  | .assign a => AssignP P a
+  | .desc d => DescP P d
+  | .comment c => TokP P c.token ∧ RunesP P c.value
+  | .close c => TokP P c.token
+
+/-- walker state: the remaining tokens and the token read last only hold `P` runes -/
+def WSt (P : Rune → Prop) (w : W) : Prop := ToksP P w.rest ∧ (∀ t, w.prev = some t → TokP P t)
+
+theorem WSt.tail {p : Option Token} {t : Token} {rs : List Token} (h : WSt P ⟨p, t :: rs⟩) :
+    WSt P ⟨some t, rs⟩ :=
+  ⟨fun x hx => h.1 x (List.mem_cons_of_mem _ hx), fun x hx => by cases hx; exact h.1 _ (by simp)⟩
+
+theorem popToken_runes {w : W} (hw : WSt P w) :
+    WP popToken w (fun t w' => WSt P w' ∧ TokP P t) := by
+  intro t w' h
+  obtain ⟨p, rest⟩ := w
+  unfold popToken at h
+  cases rest with
+  | cons u rs =>
+    simp only [] at h
+    cases h
+    exact ⟨hw.tail, hw.1 _ (by simp)⟩
+  | nil =>
+    simp only [] at h
+    cases p with
+    | none => simp only [] at h; cases h
+    | some l =>
+      simp only [] at h
+      split at h
+      · cases h; exact ⟨hw, hw.2 _ rfl⟩
+      · cases h; exact ⟨hw, RunesP.nil⟩
+
+theorem asIdent_tokP {t it : Token} (ht : TokP P t) (h : t.asIdent = some it) : TokP P it := by
+  unfold Token.asIdent at h
+  split at h
+  · cases h; exact ht
+  · cases h; exact ht
+  · cases h
+
+theorem popReferenceLoop_runes (n : Nat) :
+    ∀ (rest : List Token) (acc : List Ident) (prev : Option Token),
+    rest.length ≤ n → (∀ i ∈ acc, IdentP P i) → WSt P ⟨prev, rest⟩ →
+    ∀ r w', popReferenceLoop acc prev rest = .ok r w' → WSt P w' ∧ RefP P r := by
+  induction n with
+  | zero =>
+    intro rest acc prev hn _ _ r w' h
+    have : rest = [] := List.eq_nil_of_length_eq_zero (Nat.le_zero.mp hn)
+    subst this
+    unfold popReferenceLoop at h
+    split at h
+    · split at h <;> cases h
+    · cases h
+    · cases h
+  | succ n ih =>
+    intro rest acc prev hn hacc hw r w' h
+    cases rest with
+    | nil =>
+      unfold popReferenceLoop at h
+      split at h
+      · split at h <;> cases h
+      · cases h
+      · cases h
+    | cons t rs =>
+      unfold popReferenceLoop at h
+      cases hai : t.asIdent with
+      | none =>
+        rw [hai] at h
+        simp only [] at h
+        split at h <;> cases h
+      | some it =>
+        rw [hai] at h
+        simp only [] at h
+        have hit : TokP P it := asIdent_tokP (hw.1 t (by simp)) hai
+        have hid : IdentP P ⟨it, it.lit, ⟨it.start, it.end_⟩⟩ := ⟨hit, hit⟩
+        have hacc' : ∀ i ∈ acc ++ [(⟨it, it.lit, ⟨it.start, it.end_⟩⟩ : Ident)], IdentP P i :=
+          forall_mem_append_single hacc hid
+        have hfin : ∀ (rest' : List Token), WSt P ⟨some t, rest'⟩ →
+            (match newReference (acc ++ [(⟨it, it.lit, ⟨it.start, it.end_⟩⟩ : Ident)]) with
+              | none => (WR.panic "index out of range [0]" : WR Reference)
+              | some r => .ok r ⟨some t, rest'⟩) = .ok r w' →
+            WSt P w' ∧ RefP P r := by
+          intro rest' hw' hh
+          cases hnr : newReference (acc ++ [(⟨it, it.lit, ⟨it.start, it.end_⟩⟩ : Ident)]) with
+          | none => rw [hnr] at hh; cases hh
+          | some r0 =>
+            rw [hnr] at hh
+            cases hh
+            have hi := newReference_idents hnr
+            refine ⟨hw', ?_⟩
+            intro i hi'
+            rw [hi] at hi'
+            exact hacc' i hi'
+        cases rs with
+        | nil => exact hfin [] hw.tail h
+        | cons d rs2 =>
+          simp only [] at h
+          split at h
+          · exact ih rs2 _ (some d) (by simp at hn ⊢; omega) hacc' hw.tail.tail r w' h
+          · exact hfin (d :: rs2) hw.tail h
+
+theorem popReference_runes {w : W} (hw : WSt P w) :
+    WP popReference w (fun r w' => WSt P w' ∧ RefP P r) := by
+  intro r w' h
+  exact popReferenceLoop_runes w.rest.length w.rest [] w.prev (Nat.le_refl _)
+    (fun i hi => by cases hi) hw r w' h
+
+theorem refString_runes (hc : PConsts P) {r : Reference} (h : RefP P r) : RunesP P r.string := by
+  unfold Reference.string
+  refine joinWith_runes (RunesP.cons hc.dot RunesP.nil) _ ?_
+  intro l hl
+  obtain ⟨i, hi, rfl⟩ := List.mem_map.mp hl
+  exact (h i hi).2
+
+theorem popDescLoop_runes (n : Nat) : ∀ (rest toks : List Token) (last : Token), rest.length ≤ n →
+    ToksP P toks → WSt P ⟨some last, rest⟩ →
+    ToksP P (popDescLoop toks last rest).1 ∧ WSt P (popDescLoop toks last rest).2.2 := by
+  induction n with
+  | zero =>
+    intro rest toks last h ht hw
+    have : rest = [] := List.eq_nil_of_length_eq_zero (Nat.le_zero.mp h)
+    subst this
+    exact ⟨ht, hw⟩
+  | succ n ih =>
+    intro rest toks last h ht hw
+    match rest with
+    | [] => exact ⟨ht, hw⟩
+    | [x] => exact ⟨ht, hw⟩
+    | e :: d :: rs =>
+      unfold popDescLoop
+      split
+      · exact ih rs _ d (by simp at h ⊢; omega)
+          (ht.append (ToksP.cons (hw.1 d (by simp)) ToksP.nil)) hw.tail.tail
+      · exact ⟨ht, hw⟩
+
+theorem popDescription_runes (hc : PConsts P) {w : W} (hw : WSt P w) :
+    WP popDescription w (fun d w' => WSt P w' ∧ DescP P d) := by
+  unfold popDescription
+  refine WP.bind (popToken_runes hw) ?_
+  intro first w1 h1 d w' hm
+  have hm' : (match popDescLoop [first] first w1.rest with
+    | (toks, last, w2) => WR.ok (mkDescription toks first last) w2) = WR.ok d w' := hm
+  have := popDescLoop_runes (P := P) w1.rest.length w1.rest [first] first (Nat.le_refl _)
+    (ToksP.cons h1.2 ToksP.nil) ⟨h1.1.1, fun t ht => by cases ht; exact h1.2⟩
+  generalize popDescLoop [first] first w1.rest = res at hm' this
+  obtain ⟨toks, last, w2⟩ := res
+  simp only [] at hm' this
+  cases hm'
+  refine ⟨this.2, this.1, ?_⟩
+  show RunesP P (joinWith [cNL] (toks.map (·.lit)))
+  refine joinWith_runes (RunesP.cons hc.nl RunesP.nil) _ ?_
+  intro l hl
+  obtain ⟨t, ht, rfl⟩ := List.mem_map.mp hl
+  exact this.1 t ht
+
+theorem valueListP_append : ∀ (a : List Value) (v : Value), ValueListP P a →
+    ValueP P v → ValueListP P (a ++ [v])
+  | [], v, _, hv => by
+    show ValueListP P [v]
+    unfold ValueListP
+    exact ⟨hv, by unfold ValueListP; trivial⟩
+  | x :: xs, v, ha, hv => by
+    unfold ValueListP at ha
+    show ValueListP P (x :: (xs ++ [v]))
+    unfold ValueListP
+    exact ⟨ha.1, valueListP_append xs v ha.2 hv⟩
+
+theorem popValue_runes_aux (hc : PConsts P) (fuel : Nat) :
+    (∀ w : W, WSt P w → WP (popValue fuel) w (fun v w' => WSt P w' ∧ ValueP P v)) ∧
+    (∀ (w : W) (opener : Token) (acc : List Value), WSt P w → ValueListP P acc →
+      WP (popValueElems fuel opener acc) w (fun v w' => WSt P w' ∧ ValueP P v)) := by
+  induction fuel with
+  | zero =>
+    constructor
+    · intro w _; unfold popValue; exact WP.panic
+    · intro w o a _ _; unfold popValueElems; exact WP.panic
+  | succ fuel ih =>
+    obtain ⟨ihV, ihE⟩ := ih
+    constructor
+    · intro w hw
+      unfold popValue
+      intro v w' e
+      simp only [] at e
+      by_cases h1 : w.nextType = .ident
+      · rw [if_pos h1] at e
+        revert v w'
+        refine WP.bind (popReference_runes hw) ?_
+        intro ref w1 hr
+        apply WP.pure
+        refine ⟨hr.1, ?_⟩
+        unfold ValueP
+        exact refString_runes hc hr.2
+      · rw [if_neg h1] at e
+        by_cases h2 : w.nextType.isLiteral = true
+        · rw [if_pos h2] at e
+          revert v w'
+          refine WP.bind (popToken_runes hw) ?_
+          intro tok w1 hp
+          apply WP.pure
+          refine ⟨hp.1, ?_⟩
+          unfold ValueP
+          exact hp.2
+        · rw [if_neg h2] at e
+          by_cases h3 : w.nextType = .lbrack
+          · rw [if_pos h3] at e
+            revert v w'
+            refine WP.bind (popToken_runes hw) ?_
+            intro opener w1 hp
+            apply WP.getW_bind
+            by_cases h4 : w1.nextType = TokenType.rbrack
+            · simp only [h4, if_true]
+              refine WP.bind (popToken_runes hp.1) ?_
+              intro _ w2 hp2
+              apply WP.getW_bind
+              apply WP.pure
+              refine ⟨hp2.1, ?_⟩
+              unfold ValueP ValueListP
+              trivial
+            · simp only [h4, if_false]
+              exact ihE w1 opener [] hp.1 (by unfold ValueListP; trivial)
+          · rw [if_neg h3] at e
+            revert v w'
+            exact failUnexpected_wp _ w _
+    · intro w opener acc hw hacc
+      unfold popValueElems
+      refine WP.bind (ihV w hw) ?_
+      intro value w1 hv
+      obtain ⟨hw1, hval⟩ := hv
+      simp only []
+      apply WP.getW_bind
+      by_cases h1 : w1.nextType = .comma
+      · simp only [h1, if_true]
+        refine WP.bind (popToken_runes hw1) ?_
+        intro _ w2 hp
+        exact ihE w2 opener (acc ++ [value]) hp.1 (valueListP_append _ _ hacc hval)
+      · simp only [h1, if_false]
+        by_cases h2 : w1.nextType = .rbrack
+        · simp only [h2, if_true]
+          refine WP.bind (popToken_runes hw1) ?_
+          intro _ w2 hp
+          apply WP.getW_bind
+          apply WP.pure
+          refine ⟨hp.1, ?_⟩
+          unfold ValueP
+          exact valueListP_append _ _ hacc hval
+        · simp only [h2, if_false]
+          exact failUnexpected_wp _ _ _
+
+theorem popValue_runes (hc : PConsts P) (fuel : Nat) {w : W} (hw : WSt P w) :
+    WP (popValue fuel) w (fun v w' => WSt P w' ∧ ValueP P v) :=
+  (popValue_runes_aux hc fuel).1 w hw
+
+theorem popTag_runes (hc : PConsts P) (fuel : Nat) {w : W} (hw : WSt P w) :
+    WP (popTag fuel) w (fun t w' => WSt P w' ∧ TagP P t) := by
+  unfold popTag
+  apply WP.getW_bind
+  have hmark : WP (match w.nextType with
+      | .bang => do let tok ← popToken; pure (TagMark.bang, tok)
+      | .question => do let tok ← popToken; pure (TagMark.question, tok)
+      | _ => pure (TagMark.none, Token.zero) : WM (TagMark × Token)) w
+      (fun p w' => WSt P w' ∧ TokP P p.2) := by
+    split
+    · refine WP.bind (popToken_runes hw) ?_
+      intro tok w1 hp
+      exact WP.pure ⟨hp.1, hp.2⟩
+    · refine WP.bind (popToken_runes hw) ?_
+      intro tok w1 hp
+      exact WP.pure ⟨hp.1, hp.2⟩
+    · exact WP.pure ⟨hw, RunesP.nil⟩
+  refine WP.bind hmark ?_
+  intro p w1 hm
+  obtain ⟨mark, markToken⟩ := p
+  obtain ⟨hw1, hmk⟩ := hm
+  simp only []
+  apply WP.getW_bind
+  split
+  · refine WP.bind (popReference_runes hw1) ?_
+    intro ref w2 hr
+    exact WP.pure ⟨hr.1, hmk, (fun r h => by cases h; exact hr.2), (fun v h => by cases h)⟩
+  · refine WP.bind (popReference_runes hw1) ?_
+    intro ref w2 hr
+    exact WP.pure ⟨hr.1, hmk, (fun r h => by cases h; exact hr.2), (fun v h => by cases h)⟩
+  · refine WP.bind (popValue_runes hc fuel hw1) ?_
+    intro v w2 hv
+    exact WP.pure ⟨hv.1, hmk, (fun r h => by cases h), (fun v' h => by cases h; exact hv.2)⟩
+  · exact failUnexpected_wp _ _ _
+
+theorem endStatement_runes {w : W} (hw : WSt P w) :
+    WP endStatement w (fun c w' => WSt P w' ∧ CommentP P c) := by
+  unfold endStatement
+  refine WP.bind (popToken_runes hw) ?_
+  intro tok w1 hp
+  split
+  · refine WP.bind (popToken_runes hp.1) ?_
+    intro tok2 w2 hp2
+    split
+    · apply WP.pure
+      refine ⟨hp2.1, ?_⟩
+      intro cn hcn
+      cases hcn
+      exact hp.2
+    · exact WP.fail
+  · split
+    · exact WP.pure ⟨hp.1, fun cn h => by cases h⟩
+    · exact WP.fail
+
+theorem popType_runes (tt : TokenType) {w : W} (hw : WSt P w) :
+    WP (popType tt) w (fun _ w' => WSt P w') := by
+  unfold popType
+  refine WP.bind (popToken_runes hw) ?_
+  intro tok w1 hp
+  split
+  · exact WP.fail
+  · exact WP.pure hp.1
+
+theorem walkValueAssign_runes (hc : PConsts P) (fuel : Nat) (ref : Reference) (app : Bool) {w : W}
+    (hw : WSt P w) (href : RefP P ref) :
+    WP (walkValueAssign fuel ref app) w (fun a w' => WSt P w' ∧ AssignP P a) := by
+  unfold walkValueAssign
+  refine WP.bind (popType_runes .assign hw) ?_
+  intro _ w1 hw1
+  refine WP.bind (popValue_runes hc fuel hw1) ?_
+  intro value w2 hv
+  refine WP.bind (endStatement_runes hv.1) ?_
+  intro comment w3 hcm
+  apply WP.pure
+  exact ⟨hcm.1, href, hv.2, hcm.2⟩
+
+theorem tagsLoop_runes (hc : PConsts P) (pfuel : Nat) (fuel : Nat) :
+    ∀ (w : W) (acc : List TagValue), WSt P w → (∀ t ∈ acc, TagP P t) →
+    WP (tagsLoop pfuel fuel acc) w (fun ts w' => WSt P w' ∧ ∀ t ∈ ts, TagP P t) := by
+  induction fuel with
+  | zero => intro w acc _ _; unfold tagsLoop; exact WP.panic
+  | succ fuel ih =>
+    intro w acc hw hacc
+    unfold tagsLoop
+    apply WP.getW_bind
+    split
+    · refine WP.bind (popTag_runes hc pfuel hw) ?_
+      intro tag w1 ht
+      exact ih w1 _ ht.1 (forall_mem_append_single hacc ht.2)
+    · exact WP.pure ⟨hw, hacc⟩
+
+theorem qualsLoop_runes (hc : PConsts P) (pfuel : Nat) (fuel : Nat) :
+    ∀ (w : W) (acc : List TagValue), WSt P w → (∀ t ∈ acc, TagP P t) →
+    WP (qualsLoop pfuel fuel acc) w (fun ts w' => WSt P w' ∧ ∀ t ∈ ts, TagP P t) := by
+  induction fuel with
+  | zero => intro w acc _ _; unfold qualsLoop; exact WP.panic
+  | succ fuel ih =>
+    intro w acc hw hacc
+    unfold qualsLoop
+    apply WP.getW_bind
+    split
+    · refine WP.bind (popToken_runes hw) ?_
+      intro _ w1 hp
+      refine WP.bind (popTag_runes hc pfuel hp.1) ?_
+      intro tag w2 ht
+      exact ih w2 _ ht.1 (forall_mem_append_single hacc ht.2)
+    · exact WP.pure ⟨hw, hacc⟩
+
+theorem commentP_none : CommentP P none := fun cn h => by cases h
+
+theorem walkStatement_runes (hc : PConsts P) (fuel : Nat) {w : W} (hw : WSt P w) :
+    WP (walkStatement fuel) w (fun f w' => WSt P w' ∧ FragRunes P f) := by
+  unfold walkStatement
+  refine WP.bind (popReference_runes hw) ?_
+  intro ref w1 hr
+  obtain ⟨hw1, href⟩ := hr
+  simp only []
+  apply WP.getW_bind
+  by_cases h1 : w1.nextType = .assign
+  · simp only [h1, if_true]
+    refine WP.bind (walkValueAssign_runes hc fuel ref false hw1 href) ?_
+    intro a w2 ha
+    exact WP.pure ⟨ha.1, ha.2⟩
+  · simp only [h1, if_false]
+    by_cases h2 : w1.nextType = .plus
+    · simp only [h2, if_true]
+      refine WP.bind (popToken_runes hw1) ?_
+      intro _ w2 hp
+      apply WP.getW_bind
+      split
+      · exact failUnexpected_wp _ _ _
+      · refine WP.bind (walkValueAssign_runes hc fuel ref true hp.1 href) ?_
+        intro a w3 ha
+        exact WP.pure ⟨ha.1, ha.2⟩
+    · simp only [h2, if_false]
+      refine WP.bind (tagsLoop_runes hc fuel fuel w1 [] hw1 (fun t ht => by cases ht)) ?_
+      intro tags w2 ht
+      refine WP.bind (qualsLoop_runes hc fuel fuel w2 [] ht.1 (fun t ht => by cases ht)) ?_
+      intro quals w3 hq
+      apply WP.getW_bind
+      split
+      · refine WP.bind (popToken_runes hq.1) ?_
+        intro _ w4 hp
+        apply WP.getW_bind
+        refine WP.bind (endStatement_runes hp.1) ?_
+        intro comment w5 hcm
+        apply WP.pure
+        refine ⟨hcm.1, ?_⟩
+        show HeaderP P _
+        exact ⟨href, ht.2, hq.2, (fun d h => by cases h), hcm.2⟩
+      · refine WP.bind (popToken_runes hq.1) ?_
+        intro tok w4 hp
+        apply WP.getW_bind
+        apply WP.pure
+        refine ⟨hp.1, ?_⟩
+        show HeaderP P _
+        refine ⟨href, ht.2, hq.2, ?_, commentP_none⟩
+        intro d hd
+        cases hd
+        exact ⟨ToksP.cons hp.2 ToksP.nil, hp.2⟩
+      · refine WP.bind (endStatement_runes hq.1) ?_
+        intro comment w4 hcm
+        apply WP.pure
+        refine ⟨hcm.1, ?_⟩
+        show HeaderP P _
+        exact ⟨href, ht.2, hq.2, (fun d h => by cases h), hcm.2⟩
+      · apply WP.pure
+        refine ⟨hq.1, ?_⟩
+        show HeaderP P _
+        exact ⟨href, ht.2, hq.2, (fun d h => by cases h), commentP_none⟩
+      · apply WP.pure
+        refine ⟨hq.1, ?_⟩
+        show HeaderP P _
+        exact ⟨href, ht.2, hq.2, (fun d h => by cases h), commentP_none⟩
+      · exact failUnexpected_wp _ _ _
+
+theorem nextFragment_runes (hc : PConsts P) (fuel : Nat) {w : W} (hw : WSt P w) :
+    WP (nextFragment fuel) w (fun r w' => WSt P w' ∧ ∀ f, r = some f → FragRunes P f) := by
+  unfold nextFragment
+  apply WP.getW_bind
+  split
+  · refine WP.bind (popToken_runes hw) ?_
+    intro _ w1 hp
+    exact WP.pure ⟨hp.1, fun f h => by cases h⟩
+  · refine WP.bind (popToken_runes hw) ?_
+    intro _ w1 hp
+    exact WP.pure ⟨hp.1, fun f h => by cases h⟩
+  · refine WP.bind (popToken_runes hw) ?_
+    intro tok w1 hp
+    apply WP.pure
+    refine ⟨hp.1, ?_⟩
+    intro f h; cases h
+    exact hp.2
+  · refine WP.bind (popToken_runes hw) ?_
+    intro tok w1 hp
+    apply WP.pure
+    refine ⟨hp.1, ?_⟩
+    intro f h; cases h
+    exact ⟨hp.2, hp.2⟩
+  · refine WP.bind (popToken_runes hw) ?_
+    intro tok w1 hp
+    apply WP.pure
+    refine ⟨hp.1, ?_⟩
+    intro f h; cases h
+    exact ⟨hp.2, hp.2⟩
+  · refine WP.bind (popDescription_runes hc hw) ?_
+    intro d w1 hd
+    apply WP.pure
+    refine ⟨hd.1, ?_⟩
+    intro f h; cases h
+    exact hd.2
+  · refine WP.bind (walkStatement_runes hc fuel hw) ?_
+    intro f w1 hf
+    apply WP.pure
+    refine ⟨hf.1, ?_⟩
+    intro f' h; cases h
+    exact hf.2
+  · refine WP.bind (walkStatement_runes hc fuel hw) ?_
+    intro f w1 hf
+    apply WP.pure
+    refine ⟨hf.1, ?_⟩
+    intro f' h; cases h
+    exact hf.2
+  · exact failUnexpected_wp _ _ _
+
+theorem walkFragmentsLoop_runes (hc : PConsts P) (pfuel : Nat) (fuel : Nat) :
+    ∀ (w : W) (frags : List Fragment) (errs : List Diag), WSt P w →
+    (∀ f ∈ frags, FragRunes P f) → ∀ out errs',
+    walkFragmentsLoop true pfuel fuel w frags errs = .done out errs' →
+      ∀ f ∈ out, FragRunes P f := by
+  induction fuel with
+  | zero => intro w frags errs _ _ out errs' h; unfold walkFragmentsLoop at h; cases h
+  | succ fuel ih =>
+    intro w frags errs hw hfr out errs' h
+    unfold walkFragmentsLoop at h
+    split at h
+    · cases h; exact hfr
+    · cases hnf : nextFragment pfuel w with
+      | panic s => rw [hnf] at h; cases h
+      | fail e w1 => rw [hnf] at h; simp at h
+      | ok r w1 =>
+        rw [hnf] at h
+        have hn := nextFragment_runes hc pfuel hw r w1 hnf
+        cases r with
+        | none => exact ih w1 frags errs hn.1 hfr out errs' h
+        | some f =>
+          exact ih w1 (frags ++ [f]) errs hn.1 (forall_mem_append_single hfr (hn.2 f rfl)) out errs' h
+
+/-- the fragments read from a source of `P` runes only store `P` runes -/
+theorem collectFragments_runes (hc : PConsts P) (cls : Cls) (src : List Rune) (frags : List Fragment)
+    (hsrc : RunesP P src) (h : collectFragments cls src = .ok frags) :
+    ∀ f ∈ frags, FragRunes P f := by
+  unfold collectFragments at h
+  cases hts : allTokens cls true src with
+  | nofuel => rw [hts] at h; cases h
+  | errs es => rw [hts] at h; cases h
+  | toks ts =>
+    rw [hts] at h
+    simp only [] at h
+    cases hwf : walkFragments true ts with
+    | panic s => rw [hwf] at h; cases h
+    | hadErrors es => rw [hwf] at h; cases h
+    | done out es =>
+      rw [hwf] at h
+      cases h
+      unfold walkFragments at hwf
+      exact walkFragmentsLoop_runes hc _ _ ⟨none, ts⟩ [] []
+        ⟨allTokens_runes hc cls true src ts hsrc hts, fun t ht => by cases ht⟩
+        (fun f hf => by cases hf) _ _ hwf
+
+/-! ### formatter -/
+
+theorem quoteString_runes (hc : PConsts P) {lit : List Rune} (h : RunesP P lit) :
+    RunesP P (quoteString lit) := by
+  unfold quoteString
+  refine ((RunesP.cons hc.quote RunesP.nil).append (h.flatMap ?_)).append
+    (RunesP.cons hc.quote RunesP.nil)
+  intro r hr
+  split
+  · exact RunesP.cons hc.bsl (RunesP.cons hr RunesP.nil)
+  · exact RunesP.cons hr RunesP.nil
+
+theorem doubleSlashes_runes (hc : PConsts P) {lit : List Rune} (h : RunesP P lit) :
+    RunesP P (doubleSlashes lit) := by
+  unfold doubleSlashes
+  refine h.flatMap ?_
+  intro r hr
+  split
+  · exact RunesP.cons hc.slash (RunesP.cons hc.slash RunesP.nil)
+  · exact RunesP.cons hr RunesP.nil
+
+theorem tokenSource_runes (hc : PConsts P) {t : Token} (h : TokP P t) : RunesP P (tokenSource t) := by
+  unfold tokenSource
+  split
+  · exact quoteString_runes hc h
+  · exact ((RunesP.cons hc.slash RunesP.nil).append (doubleSlashes_runes hc h)).append
+      (RunesP.cons hc.slash RunesP.nil)
+  · exact (RunesP.cons hc.pipe (RunesP.cons hc.sp RunesP.nil)).append h
+  · exact (RunesP.cons hc.slash (RunesP.cons hc.slash RunesP.nil)).append h
+  · exact ((RunesP.cons hc.slash (RunesP.cons hc.star RunesP.nil)).append h).append
+      (RunesP.cons hc.star (RunesP.cons hc.slash RunesP.nil))
+  · exact h
+
+theorem flatMap_tokenSource_runes (hc : PConsts P) {ts : List Token} (h : ToksP P ts) :
+    RunesP P (ts.flatMap tokenSource) := by
+  intro x hx
+  obtain ⟨t, ht, hxt⟩ := List.mem_flatMap.mp hx
+  exact tokenSource_runes hc (h t ht) x hxt
+
+theorem referenceTokens_toks (hc : PConsts P) {r : Reference} (h : RefP P r) :
+    ToksP P (referenceTokens r) := by
+  unfold referenceTokens
+  unfold RefP at h
+  generalize r.idents = ids at h
+  cases ids with
+  | nil => exact ToksP.nil
+  | cons i is =>
+    simp only []
+    refine ToksP.cons (h i (by simp)).1 (ToksP.flatMap ?_)
+    intro p hp
+    exact ToksP.cons (tokP_new .dot (RunesP.cons hc.dot RunesP.nil))
+      (ToksP.cons (h p (List.mem_cons_of_mem _ hp)).1 ToksP.nil)
+
+mutual
+theorem valueTokens_toks (hc : PConsts P) : (v : Value) → ValueP P v → ToksP P (valueTokens v)
+  | .scalar t _, h => by
+    simp only [ValueP] at h
+    simp only [valueTokens]
+    exact ToksP.cons h ToksP.nil
+  | .array vs _, h => by
+    simp only [ValueP] at h
+    simp only [valueTokens]
+    exact ((ToksP.cons (tokP_new .lbrack (RunesP.cons hc.lbrack RunesP.nil)) ToksP.nil).append
+      (valueListTokens_toks hc true vs h)).append
+      (ToksP.cons (tokP_new .rbrack (RunesP.cons hc.rbrack RunesP.nil)) ToksP.nil)
+theorem valueListTokens_toks (hc : PConsts P) (first : Bool) :
+    (vs : List Value) → ValueListP P vs → ToksP P (valueListTokens first vs)
+  | [], _ => by simp only [valueListTokens]; exact ToksP.nil
+  | v :: vs, h => by
+    simp only [ValueListP] at h
+    simp only [valueListTokens]
+    refine (ToksP.append ?_ (valueTokens_toks hc v h.1)).append (valueListTokens_toks hc false vs h.2)
+    cases first with
+    | true => exact ToksP.nil
+    | false =>
+      exact ToksP.cons (tokP_new .comma (RunesP.cons hc.comma RunesP.nil))
+        (ToksP.cons (tokP_new .space (RunesP.cons hc.sp RunesP.nil)) ToksP.nil)
+end
+
+theorem tagTokens_toks (hc : PConsts P) {v : TagValue} (h : TagP P v) : ToksP P (tagTokens v) := by
+  unfold tagTokens
+  refine (ToksP.append ?_ ?_).append ?_
+  · split
+    · exact ToksP.cons h.1 (ToksP.cons (tokP_new .space (RunesP.cons hc.sp RunesP.nil)) ToksP.nil)
+    · exact ToksP.nil
+  · split
+    · rename_i tok sp heq
+      have := h.2.2 _ heq
+      simp only [ValueP] at this
+      exact ToksP.cons this ToksP.nil
+    · exact ToksP.cons RunesP.nil ToksP.nil
+    · exact ToksP.nil
+  · split
+    · rename_i r heq
+      exact referenceTokens_toks hc (h.2.1 r heq)
+    · exact ToksP.nil
+
+theorem headerTokens_toks (hc : PConsts P) {b : BlockHeader} (h : HeaderP P b) :
+    ToksP P (headerTokens b) := by
+  unfold headerTokens
+  obtain ⟨h1, h2, h3, h4, _⟩ := h
+  refine ((((referenceTokens_toks hc h1).append ?_).append ?_).append ?_).append ?_
+  · exact ToksP.flatMap (fun t ht =>
+      ToksP.cons (tokP_new .space (RunesP.cons hc.sp RunesP.nil)) (tagTokens_toks hc (h2 t ht)))
+  · exact ToksP.flatMap (fun t ht =>
+      ToksP.cons (tokP_new .colon (RunesP.cons hc.colon RunesP.nil)) (tagTokens_toks hc (h3 t ht)))
+  · split
+    · exact ToksP.cons (tokP_new .space (RunesP.cons hc.sp RunesP.nil))
+        (ToksP.cons (tokP_new .lbrace (RunesP.cons hc.lbrace RunesP.nil)) ToksP.nil)
+    · exact ToksP.nil
+  · split
+    · rename_i d heq
+      exact ToksP.cons (tokP_new .space (RunesP.cons hc.sp RunesP.nil)) (h4 d heq).1
+    · exact ToksP.nil
+
+theorem assignTokens_toks (hc : PConsts P) {a : Assignment} (h : AssignP P a) :
+    ToksP P (assignTokens a) := by
+  unfold assignTokens
+  refine ((referenceTokens_toks hc h.1).append ?_).append (valueTokens_toks hc _ h.2.1)
+  have hsp : TokP P (newToken .space [cSP]) := tokP_new .space (RunesP.cons hc.sp RunesP.nil)
+  have has : TokP P (newToken .assign [61]) := tokP_new .assign (RunesP.cons hc.assign RunesP.nil)
+  have hpl : TokP P (newToken .plus [43]) := tokP_new .plus (RunesP.cons hc.plus RunesP.nil)
+  split
+  · exact ToksP.cons hsp (ToksP.cons hpl (ToksP.cons has (ToksP.cons hsp ToksP.nil)))
+  · exact ToksP.cons hsp (ToksP.cons has (ToksP.cons hsp ToksP.nil))
+
+theorem inlineComment_runes (hc : PConsts P) {c : Option CommentNode} (h : CommentP P c) :
+    RunesP P (inlineComment c) := by
+  cases c with
+  | none => exact RunesP.nil
+  | some cn =>
+    exact (RunesP.cons hc.sp (RunesP.cons hc.slash (RunesP.cons hc.slash RunesP.nil))).append
+      (h cn rfl)
+
+theorem tabs_runes (hc : PConsts P) (n : Nat) : RunesP P (tabs n) := by
+  intro r hr
+  unfold tabs at hr
+  rw [List.eq_of_mem_replicate hr]
+  exact hc.tab
+
+theorem singleLineFrag_runes (hc : PConsts P) (indent : Nat) (src : SourceNode) (parts : List Token)
+    (hp : ToksP P parts) (hcm : CommentP P src.comment) :
+    RunesP P (singleLineFrag indent src parts).newText := by
+  show RunesP P (tabs indent ++ (parts.flatMap tokenSource ++ inlineComment src.comment) ++ [cNL])
+  exact ((tabs_runes hc indent).append ((flatMap_tokenSource_runes hc hp).append
+    (inlineComment_runes hc hcm))).append (RunesP.cons hc.nl RunesP.nil)
+
+/-- every line of the list only holds `P` runes -/
+def LinesP (P : Rune → Prop) (ls : List (List Rune)) : Prop := ∀ l ∈ ls, RunesP P l
+
+theorem LinesP.nil : LinesP P [] := fun _ h => by cases h
+
+theorem LinesP.cons {a : List Rune} {l : List (List Rune)} (ha : RunesP P a) (hl : LinesP P l) :
+    LinesP P (a :: l) := by
+  intro r hr
+  rcases List.mem_cons.mp hr with h | h
+  · rw [h]; exact ha
+  · exact hl r h
+
+theorem LinesP.snoc {a : List Rune} {l : List (List Rune)} (hl : LinesP P l) (ha : RunesP P a) :
+    LinesP P (l ++ [a]) := forall_mem_append_single hl ha
+
+theorem LinesP.ite {c : Prop} [Decidable c] {a b : List (List Rune)} (ha : LinesP P a)
+    (hb : LinesP P b) : LinesP P (if c then a else b) := by
+  split
+  · exact ha
+  · exact hb
+
+theorem fieldsAux_runes (cls : Cls) : ∀ (rs cur : List Rune), RunesP P rs → RunesP P cur →
+    LinesP P (fieldsAux cls rs cur) := by
+  intro rs
+  induction rs with
+  | nil =>
+    intro cur _ hcur
+    unfold fieldsAux
+    split
+    · exact LinesP.nil
+    · exact LinesP.cons hcur LinesP.nil
+  | cons r rs ih =>
+    intro cur hrs hcur
+    unfold fieldsAux
+    split
+    · split
+      · exact ih [] hrs.tail RunesP.nil
+      · exact LinesP.cons hcur (ih [] hrs.tail RunesP.nil)
+    · exact ih _ hrs.tail (hcur.snoc hrs.head)
+
+theorem fields_runes (cls : Cls) {s : List Rune} (h : RunesP P s) : LinesP P (fields cls s) :=
+  fieldsAux_runes cls s [] h RunesP.nil
+
+theorem rdWords_runes (hc : PConsts P) (maxWidth : Int) : ∀ (ws out : List (List Rune))
+    (pend : List Rune), LinesP P ws → LinesP P out → RunesP P pend →
+    LinesP P (rdWords maxWidth ws out pend).1 ∧ RunesP P (rdWords maxWidth ws out pend).2 := by
+  intro ws
+  induction ws with
+  | nil => intro out pend _ ho hp; unfold rdWords; exact ⟨ho, hp⟩
+  | cons word ws ih =>
+    intro out pend hws ho hp
+    have hw : RunesP P word := hws word (by simp)
+    have hws' : LinesP P ws := fun l hl => hws l (List.mem_cons_of_mem _ hl)
+    unfold rdWords
+    split
+    · exact ih out word hws' ho hw
+    · split
+      · exact ih _ word hws' (ho.snoc hp) hw
+      · exact ih out _ hws' ho ((hp.append (RunesP.cons hc.sp RunesP.nil)).append hw)
+
+theorem rdLines_runes (hc : PConsts P) (cls : Cls) (maxWidth : Int) : ∀ (ls : List (List Rune))
+    (st : RDState), LinesP P ls → LinesP P st.out → RunesP P st.pend →
+    LinesP P (rdLines cls maxWidth ls st).out ∧ RunesP P (rdLines cls maxWidth ls st).pend := by
+  intro ls
+  induction ls with
+  | nil => intro st _ ho hp; unfold rdLines; exact ⟨ho, hp⟩
+  | cons line ls ih =>
+    intro st hls ho hp
+    have hl : RunesP P line := hls line (by simp)
+    have hls' : LinesP P ls := fun l hl => hls l (List.mem_cons_of_mem _ hl)
+    unfold rdLines
+    split
+    · have ho1 : LinesP P (if st.pend ≠ [] then st.out ++ [st.pend] else st.out) := by
+        split
+        · exact ho.snoc hp
+        · exact ho
+      simp only []
+      refine ih _ hls' ?_ RunesP.nil
+      exact LinesP.ite (ho1.snoc RunesP.nil) ho1
+    · have hw := rdWords_runes hc maxWidth (fields cls line) st.out st.pend (fields_runes cls hl) ho hp
+      generalize rdWords maxWidth (fields cls line) st.out st.pend = res at hw
+      obtain ⟨out, pend⟩ := res
+      exact ih _ hls' hw.1 hw.2
+
+theorem splitOn_runes (sep : Rune) : ∀ (s : List Rune), RunesP P s → LinesP P (splitOn sep s) := by
+  intro s
+  induction s with
+  | nil => intro _; unfold splitOn; exact LinesP.cons RunesP.nil LinesP.nil
+  | cons r rs ih =>
+    intro h
+    have ih' := ih h.tail
+    unfold splitOn
+    generalize splitOn sep rs = res at ih'
+    cases res with
+    | nil => exact LinesP.cons RunesP.nil LinesP.nil
+    | cons l ls =>
+      simp only []
+      split
+      · exact LinesP.cons RunesP.nil ih'
+      · exact LinesP.cons (RunesP.cons h.head (ih' l (by simp)))
+          (fun x hx => ih' x (List.mem_cons_of_mem _ hx))
+
+theorem reformatDescription_runes (hc : PConsts P) (cls : Cls) (input : List Rune) (maxWidth : Int)
+    (h : RunesP P input) : LinesP P (reformatDescription cls input maxWidth) := by
+  unfold reformatDescription
+  have hst := rdLines_runes hc cls maxWidth (splitOn cNL input) ⟨[], [], false⟩
+    (splitOn_runes cNL input h) LinesP.nil RunesP.nil
+  generalize rdLines cls maxWidth (splitOn cNL input) ⟨[], [], false⟩ = st at hst
+  simp only []
+  split
+  · exact hst.1.snoc hst.2
+  · exact hst.1
+
+theorem trimRightSpaces_runes {s : List Rune} (h : RunesP P s) : RunesP P (trimRightSpaces s) := by
+  intro r hr
+  unfold trimRightSpaces at hr
+  have h1 := List.mem_reverse.mp hr
+  have h2 := (List.dropWhile_sublist _).subset h1
+  exact h r (List.mem_reverse.mp h2)
+
+theorem multiLineFrag_runes (hc : PConsts P) (indent : Nat) (span : Span) (pfx : List Rune)
+    (lines : List (List Rune)) (hpfx : RunesP P pfx) (hl : LinesP P lines) :
+    RunesP P (multiLineFrag indent span pfx lines).newText := by
+  show RunesP P (joinWith [cNL] (lines.map fun part => trimRightSpaces (tabs indent ++ pfx ++ part))
+    ++ [cNL])
+  refine (joinWith_runes (RunesP.cons hc.nl RunesP.nil) _ ?_).append (RunesP.cons hc.nl RunesP.nil)
+  intro l hlm
+  obtain ⟨part, hp, rfl⟩ := List.mem_map.mp hlm
+  exact trimRightSpaces_runes (((tabs_runes hc indent).append hpfx).append (hl part hp))
+
+theorem fmtFragment_runes (hc : PConsts P) (cls : Cls) (indent : Nat) (f : Fragment)
+    (h : FragRunes P f) : RunesP P (fmtFragment cls indent f).1.newText := by
+  cases f with
+  | header b =>
+    show RunesP P (singleLineFrag indent b.src (headerTokens b)).newText
+    have hb : HeaderP P b := h
+    exact singleLineFrag_runes hc _ _ _ (headerTokens_toks hc hb) hb.2.2.2.2
+  | assign a =>
+    show RunesP P (singleLineFrag indent a.src (assignTokens a)).newText
+    have ha : AssignP P a := h
+    exact singleLineFrag_runes hc _ _ _ (assignTokens_toks hc ha) ha.2.2
+  | desc d =>
+    have hd : DescP P d := h
+    unfold fmtFragment
+    simp only []
+    refine multiLineFrag_runes hc _ _ _ _ (RunesP.cons hc.pipe (RunesP.cons hc.sp RunesP.nil)) ?_
+    split
+    · exact LinesP.cons RunesP.nil LinesP.nil
+    · exact reformatDescription_runes hc cls _ _ hd.2
+  | comment c =>
+    have hcm : TokP P c.token ∧ RunesP P c.value := h
+    show RunesP P (singleLineFrag indent ⟨c.span.start, c.span.end_, none⟩ [c.token]).newText
+    exact singleLineFrag_runes hc _ _ _ (ToksP.cons hcm.1 ToksP.nil) commentP_none
+  | close c =>
+    have hcl : TokP P c.token := h
+    show RunesP P (singleLineFrag (indent - 1) ⟨c.span.start, c.span.end_, none⟩ [c.token]).newText
+    exact singleLineFrag_runes hc _ _ _ (ToksP.cons hcl ToksP.nil) commentP_none
+
+theorem diffFile_runes (hc : PConsts P) (cls : Cls) : ∀ (frags : List Fragment) (indent : Nat),
+    (∀ f ∈ frags, FragRunes P f) → ∀ d ∈ diffFile cls indent frags, RunesP P d.newText := by
+  intro frags
+  induction frags with
+  | nil => intro indent _ d hd; unfold diffFile at hd; cases hd
+  | cons f fs ih =>
+    intro indent h d hd
+    unfold diffFile at hd
+    have hf := fmtFragment_runes hc cls indent f (h f (by simp))
+    generalize fmtFragment cls indent f = res at hd hf
+    obtain ⟨d0, i⟩ := res
+    simp only [] at hd hf
+    rcases List.mem_cons.mp hd with e | e
+    · rw [e]; exact hf
+    · exact ih i (fun x hx => h x (List.mem_cons_of_mem _ hx)) d e
+
+theorem fmtJoin_runes (hc : PConsts P) : ∀ (ds : List FmtFrag) (le : Option Nat),
+    (∀ d ∈ ds, RunesP P d.newText) → RunesP P (fmtJoin ds le) := by
+  intro ds
+  induction ds with
+  | nil => intro le _; unfold fmtJoin; exact RunesP.nil
+  | cons d ds ih =>
+    intro le h
+    unfold fmtJoin
+    refine (RunesP.append ?_ (h d (by simp))).append
+      (ih _ (fun x hx => h x (List.mem_cons_of_mem _ hx)))
+    split
+    · split
+      · exact RunesP.cons hc.nl RunesP.nil
+      · exact RunesP.nil
+    · exact RunesP.nil
+
+end Runes
+
+/-- **Part 2**: `Fmt` only prints runes of its input and the punctuation `fmtConsts` -/
+theorem fmt_runes (cls : Cls) (P : Rune → Prop) (hP : ∀ r ∈ fmtConsts, P r) (src out : List Rune)
+    (hsrc : ∀ r ∈ src, P r) (h : fmt cls src = .ok out) : ∀ r ∈ out, P r := by
+  have hc := PConsts.of_list hP
+  unfold fmt at h
+  cases hcf : collectFragments cls src with
+  | panic s => rw [hcf] at h; cases h
+  | err => rw [hcf] at h; cases h
+  | ok frags =>
+    rw [hcf] at h
+    cases h
+    exact fmtJoin_runes hc _ none
+      (diffFile_runes hc cls frags 0 (collectFragments_runes hc cls src frags hsrc hcf))
+
+/-! ## Part 3: byte-level corollaries -/
+
+theorem validRune_consts : ∀ r ∈ fmtConsts, validRune r = true := by decide
+
+/-- what `fmtSrc` returns is the encoding of what `fmt` returns on the decoded source -/
+theorem fmtSrc_ok_inv (cls : Cls) (bytes out : List Nat) (h : fmtSrc cls bytes = .ok out) :
+    ∃ text, fmt cls (decodeRunes bytes) = .ok text ∧ out = encodeRunes text := by
+  unfold fmtSrc at h
+  cases hf : fmt cls (decodeRunes bytes) with
+  | ok text => rw [hf] at h; cases h; exact ⟨text, rfl, rfl⟩
+  | err => rw [hf] at h; cases h
+  | panic s => rw [hf] at h; cases h
+
+/-- the text `Fmt` prints for a decoded source survives `string(…)` / `[]rune(…)` -/
+theorem decode_encode_fmt (cls : Cls) (bytes : List Nat) (text : List Rune)
+    (h : fmt cls (decodeRunes bytes) = .ok text) : decodeRunes (encodeRunes text) = text :=
+  decode_encode text (fmt_runes cls (fun r => validRune r = true) validRune_consts _ _
+    (decodeRunes_valid bytes) h)
+
+/-- `Fmt` is idempotent on byte strings -/
+theorem fmtSrc_idempotent (cls : Cls) (hcls : ClsOK cls) (bytes out : List Nat)
+    (h : fmtSrc cls bytes = .ok out) : fmtSrc cls out = .ok out := by
+  obtain ⟨text, hf, rfl⟩ := fmtSrc_ok_inv cls bytes out h
+  have hd := decode_encode_fmt cls bytes text hf
+  have hi := fmt_idempotent cls hcls _ _ hf
+  unfold fmtSrc
+  rw [hd, hi]
+
+/-- a source that parses is formatted to a source that parses to an equivalent tree, on bytes -/
+theorem parse_roundtrip_bytes (cls : Cls) (hcls : ClsOK cls) (bytes : List Nat) (ff : Bool) (f : File)
+    (h : parseFile cls (decodeRunes bytes) ff = .tree f) :
+    ∃ out, fmtSrc cls bytes = .ok out ∧
+      ∃ f', parseFile cls (decodeRunes out) ff = .tree f' ∧ File.equiv cls f' f := by
+  obtain ⟨text, hf, f', hp, he⟩ := parse_roundtrip cls hcls _ ff f h
+  have hd := decode_encode_fmt cls bytes text hf
+  refine ⟨encodeRunes text, ?_, f', ?_, he⟩
+  · unfold fmtSrc; rw [hf]
+  · rw [hd]; exact hp
 
 end J5V.Bcl
